@@ -40,6 +40,8 @@ def guard_actions(guards):
 
 
 def run(ctx):
+    for entry_ in ("main", "single_level_sign", "recursive_sign"):
+        generic.kwargs_keys_are_dests(ctx, "C09-D7 keyword reads are option destinations", "suit_generator.cmd_sign", entry_)
     R = ctx.report
     repo = ctx.repo
     ctx.use_files("ncs/sign_script.py", "ncs/basic_kms.py", "suit_generator/cmd_sign.py", "suit_generator/suit_sign_script_base.py")
